@@ -101,6 +101,18 @@ def seeds():
     V = V + [(2, 1, 1), (3, 1, 1), (2, 2, 1), (2, 1, 2)]
     F = F + [(8 + a, 8 + b, 8 + c) for a, b, c in tet_f]
     out["two"] = (V, F)
+    # 5x4x1 slab with a U-shaped (concave) through-hole: the vertex mean of the hole ring, (2.5, 2.25), lies in
+    # the material tongue [2,3]x[2,3], so an engine that seeds the hole at that mean carves the wrong region
+    outer = [(0, 0), (5, 0), (5, 4), (0, 4)]
+    inner = [(1, 1), (4, 1), (4, 3), (3, 3), (3, 2), (2, 2), (2, 3), (1, 3)]
+    tris = [(0, 4, 11), (10, 9, 8), (10, 8, 7), (5, 4, 0), (5, 0, 1), (5, 1, 2), (3, 0, 11), (3, 11, 10),
+            (3, 10, 7), (3, 7, 6), (6, 5, 2), (6, 2, 3)]
+    V, F, n = _prism(outer + inner, tris, 1)
+    for i in range(4):
+        _wall(F, n, i, (i + 1) % 4)
+    for i in range(8):
+        _wall(F, n, 4 + i, 4 + (i + 1) % 8, flip=True)
+    out["uhole"] = (V, F)
     return {k: ([list(v) for v in V], [list(f) for f in F]) for k, (V, F) in out.items()}
 
 
@@ -114,15 +126,28 @@ def with_rotations(base):
     return out
 
 
-BASE_ORDER = ["tet", "cube", "octa", "lprism", "hole", "two"]
+BASE_ORDER = ["tet", "cube", "octa", "lprism", "hole", "two", "uhole"]
 SEEDS = with_rotations(seeds())
 SEED_ORDER = ["%s/r%d" % (n, r) for n in BASE_ORDER for r in range(3)]
-NONCONVEX = ("lprism", "hole", "two")      # only used to name a deviation; TLC decides convexity itself
+NONCONVEX = ("lprism", "hole", "two", "uhole")      # only used to name a deviation; TLC decides convexity itself
 
 
 def normals_all():
     base = [n for n in itertools.product((-1, 0, 1), repeat=3) if any(n)]
     return base + EXTRA_NORMALS + [tuple(-x for x in n) for n in EXTRA_NORMALS[:2]]
+
+
+# gently tilted planes that stay inside the U-hole slab over the whole hole: the section is a ring whose
+# interior loop is the concave hole, cut in general position (half-lattice offsets)
+TILTED = [(0, 1, 4), (1, 0, 4), (0, -1, -4), (-1, 0, -4)]
+UHOLE_QUICK = [n for n in itertools.product((-1, 0, 1), repeat=3) if sum(map(abs, n)) == 1] + TILTED + \
+    [(1, 1, 1), (1, -1, 0), (0, 1, 1), (-1, 0, 1), (1, 2, 0), (1, 1, 2), (0, 1, -2), (-1, -1, -2)]
+
+
+def normals_for(base, tier):
+    if base != "uhole":
+        return normals_all()
+    return UHOLE_QUICK if tier != "thorough" else normals_all() + TILTED
 
 
 def positive_rep(n):
@@ -433,14 +458,21 @@ def _chunk(items):
 
 
 # ------------------------------------------------------------------- enumeration
-def k_theory(name, n):
-    """lcm of the denominators a crossing of a mesh edge with a plane of normal n (lattice or half-lattice
-    offset) can have; an enumeration filter only: capped slices form cubic terms in TLC's 32-bit integers"""
+def k_plane(name, n, c2):
+    """lcm of the denominators of the points where the plane n.(2p) = c2 crosses a mesh edge; an enumeration
+    filter only: capped slices form cubic terms in TLC's 32-bit integers, so they are recorded only where the
+    grid a correct result lives on is coarse enough"""
     V, F = SEEDS[name]
     K = 1
     for a, b in {tuple(sorted((f[i], f[(i + 1) % 3]))) for f in F for i in range(3)}:
-        d = abs(2 * sum(n[k] * (V[a][k] - V[b][k]) for k in range(3)))
-        if d:
+        sa = 2 * sum(n[k] * V[a][k] for k in range(3)) - c2
+        sb = 2 * sum(n[k] * V[b][k] for k in range(3)) - c2
+        if sa * sb < 0:
+            d = abs(sa - sb)
+            g = d
+            for k in range(3):
+                g = math.gcd(g, abs(V[b][k] * sa - V[a][k] * sb))
+            d //= g
             K = K * d // math.gcd(K, d)
     return K
 
@@ -465,11 +497,14 @@ def build_work(tier, engines, rs):
     patterns = set()
     npairs = 0
     nocap = {}
+    toofine = 0
     for bi, base in enumerate(BASE_ORDER):
         V, F = SEEDS[base + "/r0"]
         planes = []
-        for ni, n in enumerate(normals_all()):
-            c2s = offsets(V, n)
+        for ni, n in enumerate(normals_for(base, tier)):
+            # planes whose crossing points need a grid finer than TLC's 32-bit integers carry are not enumerated
+            c2s = [c2 for c2 in offsets(V, n) if k_plane(base + "/r0", n, c2) <= KMAX]
+            toofine += len(offsets(V, n)) - len(c2s)
             for c2 in c2s:
                 planes.append((n, c2))
             # parallel sections through mesh_multiplane, one call per normal covering every offset
@@ -487,9 +522,10 @@ def build_work(tier, engines, rs):
             # caps with holes, several loops or pinched loops only arise on the non-convex seeds
             full = tier == "thorough" or base in NONCONVEX or k % 2 == 0 or not engines
             eng = list(engines) if full else [engines[(k // 2) % len(engines)]]
-            if want_slice and k_theory(base + "/r0", n) > KCAP:
+            if k_plane(base + "/r0", n, c2) > KCAP:
                 eng = []
-                nocap[base + str(list(n))] = nocap.get(base + str(list(n)), 0) + 1
+                if want_slice:
+                    nocap[base + str(list(n))] = nocap.get(base + str(list(n)), 0) + 1
             reps = [(r, j) for r in range(3) for j in range(3)] if tier == "thorough" else [((k + bi) % 3, 0)]
             for r, j in reps:
                 want_sub = ((k + j) % 3) == 0
@@ -510,6 +546,7 @@ def build_work(tier, engines, rs):
                 continue
             work.append(("pair", "%s/r%d" % (base, q % 3), wid, p1, p2))
             wid += 1
+    nocap["planes_not_enumerated_at_all"] = toofine
     return work, patterns, npairs, nocap
 
 
@@ -601,7 +638,7 @@ def main(argv):
            "mesh_plane_pairs": npairs, "work_items": len(work),
            "seeds": {k: {"vertices": len(SEEDS[k + "/r0"][0]), "faces": len(SEEDS[k + "/r0"][1])} for k in BASE_ORDER},
            "presentations_per_seed": 3,
-           "normals": len(normals_all()), "triangle_sign_patterns": len(patterns),
+           "normals": len(normals_all()), "extra_tilted_normals_for_uhole": [list(n) for n in TILTED], "triangle_sign_patterns": len(patterns),
            "records_per_kind": bykind, "records_per_api": byapi, "capped_records_per_engine": byengine,
            "planes_not_capped_grid_too_fine": nocap, "plane_pairs_not_judged_grid_too_fine": skipped_pairs,
            "engines_used": engines, "engines_skipped_not_importable": skipped,
